@@ -26,6 +26,7 @@ import (
 	sdk "github.com/cosmos/cosmos-sdk/types"
 	authtypes "github.com/cosmos/cosmos-sdk/x/auth/types"
 	banktypes "github.com/cosmos/cosmos-sdk/x/bank/types"
+	govv1 "github.com/cosmos/cosmos-sdk/x/gov/types/v1"
 	minttypes "github.com/cosmos/cosmos-sdk/x/mint/types"
 	slashingtypes "github.com/cosmos/cosmos-sdk/x/slashing/types"
 	stakingtypes "github.com/cosmos/cosmos-sdk/x/staking/types"
@@ -58,6 +59,7 @@ type World struct {
 	Ops   []Op // sorted by address bytes: op id == rank
 
 	accNums map[string]uint64 // account numbers assigned at genesis (see genesisAccNum)
+	senderOverride string     // while set, BuildMsg uses it as the sender of the messages it builds (proposal contents)
 }
 
 func mkAcct(secret string) Acct {
@@ -125,10 +127,12 @@ type Genesis struct {
 	MinCommE18   int64
 	Vals         []GVal
 	PoaGenesis   []byte // optional: raw x/poa genesis JSON (genesis round-trip checks)
+	GovAdmin     bool   // the PoA admin is the x/gov account (the default configuration): no environment override
 }
 
 // Node is one running SimApp instance.
 type Node struct {
+	props   map[uint64][]Msg // governance proposals submitted on this node and not yet final: id -> inner messages
 	W       *World
 	App     *simapp.SimApp
 	DB      dbm.DB
@@ -148,15 +152,31 @@ func newApp(db dbm.DB, home string) *simapp.SimApp {
 func decE18(v int64) sdkmath.LegacyDec { return sdkmath.LegacyNewDecWithPrec(v, 18) }
 
 // NewNode builds the genesis, runs InitChain and returns the node plus the InitChain validator updates.
+func setAdminEnv(w *World, g Genesis) {
+	if g.GovAdmin {
+		os.Unsetenv("POA_ADMIN_ADDRESS")
+	} else {
+		os.Setenv("POA_ADMIN_ADDRESS", w.Admin.Addr.String())
+	}
+}
+
+// AdminAddr: the address that holds the PoA authority on a node with this genesis
+func (w *World) AdminAddr(g Genesis) sdk.AccAddress {
+	if g.GovAdmin {
+		return authtypes.NewModuleAddress("gov")
+	}
+	return w.Admin.Addr
+}
+
 func NewNode(w *World, g Genesis) (*Node, []abci.ValidatorUpdate, error) {
-	os.Setenv("POA_ADMIN_ADDRESS", w.Admin.Addr.String())
+	setAdminEnv(w, g)
 	home, err := os.MkdirTemp("", "poaverif-home")
 	if err != nil {
 		return nil, nil, err
 	}
 	db := dbm.NewMemDB()
 	app := newApp(db, home)
-	n := &Node{W: w, App: app, DB: db, G: g, Home: home}
+	n := &Node{W: w, App: app, DB: db, G: g, Home: home, props: map[uint64][]Msg{}}
 	n.Genesis = time.Date(2030, 1, 1, 0, 0, 0, 0, time.UTC)
 	n.Time = n.Genesis
 
@@ -256,6 +276,18 @@ func NewNode(w *World, g Genesis) (*Node, []abci.ValidatorUpdate, error) {
 		gs["poa"] = g.PoaGenesis
 	}
 
+	// gov: a voting period shorter than any block interval, so that a proposal submitted and voted on in block h is
+	// tallied — and, if it passes, executed — by x/gov's EndBlocker of block h+1; deposits of one base unit
+	{
+		gg := govv1.DefaultGenesisState()
+		vp, evp := 500*time.Millisecond, 400*time.Millisecond
+		gg.Params.VotingPeriod = &vp
+		gg.Params.ExpeditedVotingPeriod = &evp
+		gg.Params.MinDeposit = sdk.NewCoins(sdk.NewCoin(BondDenom, sdkmath.NewInt(1)))
+		gg.Params.ExpeditedMinDeposit = sdk.NewCoins(sdk.NewCoin(BondDenom, sdkmath.NewInt(2)))
+		gs["gov"] = cdc.MustMarshalJSON(gg)
+	}
+
 	stateBytes, err := json.Marshal(gs)
 	if err != nil {
 		return nil, nil, err
@@ -278,6 +310,7 @@ func (n *Node) Close() { os.RemoveAll(n.Home) }
 
 // Restart drops the app object and re-creates it over the same DB.
 func (n *Node) Restart() {
+	setAdminEnv(n.W, n.G)
 	n.App = newApp(n.DB, n.Home)
 }
 
